@@ -124,6 +124,35 @@ fn algebra_case(sh: &mut Shard, chain: &[M], pts: &[(i64, i64)], verbose: bool) 
         }
         sh.class("compose_many");
     }
+    // ---- the cumulative builder forms: t.translated(..) / scaled / rotated / skewed are documented as "the new
+    // transform is added to the existing one", i.e. t.compose(&constructor(..)) - the existing transform first
+    if !pts.is_empty() {
+        let o = Coord { x: pts[0].0 as f64, y: pts[0].1 as f64 };
+        let (dx, dy) = (pts[pts.len() - 1].0 as f64, pts[pts.len() - 1].1 as f64);
+        let forms: Vec<(&str, AffineTransform<f64>, AffineTransform<f64>)> = vec![
+            ("translated", cf.translated(dx, dy), cf.compose(&AffineTransform::translate(dx, dy))),
+            ("scaled", cf.scaled(2.0, -3.0, o), cf.compose(&AffineTransform::scale(2.0, -3.0, o))),
+            ("rotated", cf.rotated(30.0, o), cf.compose(&AffineTransform::rotate(30.0, o))),
+            ("skewed", cf.skewed(20.0, 35.0, o), cf.compose(&AffineTransform::skew(20.0, 35.0, o))),
+        ];
+        for (name, got, exp) in forms {
+            sh.eval(1);
+            let (g, e) = (mat_of_f(&got), mat_of_f(&exp));
+            let mag = e.iter().fold(1.0f64, |a, b| a.max(b.abs()));
+            if g.iter().zip(e.iter()).any(|(x, y)| !((x - y).abs() <= 1e-9 * mag)) {
+                sh.violation(&format!("builder.{name}|AffineTransform<f64>|-"), det(&format!("builder.{name}"), format!("t.compose(&{name} constructor) = {:?}", e), format!("{:?}", g)));
+            }
+        }
+        sh.eval(2);
+        let (oi, di) = (Coord { x: pts[0].0, y: pts[0].1 }, (pts[pts.len() - 1].0, pts[pts.len() - 1].1));
+        if mat_of_i(&ci.translated(di.0, di.1)) != mat_of_i(&ci.compose(&AffineTransform::translate(di.0, di.1))) {
+            sh.violation("builder.translated|AffineTransform<i64>|-", det("builder.translated", format!("{:?}", mat_of_i(&ci.compose(&AffineTransform::translate(di.0, di.1)))), format!("{:?}", mat_of_i(&ci.translated(di.0, di.1)))));
+        }
+        if mat_of_i(&ci.scaled(2, -3, oi)) != mat_of_i(&ci.compose(&AffineTransform::scale(2, -3, oi))) {
+            sh.violation("builder.scaled|AffineTransform<i64>|-", det("builder.scaled", format!("{:?}", mat_of_i(&ci.compose(&AffineTransform::scale(2, -3, oi)))), format!("{:?}", mat_of_i(&ci.scaled(2, -3, oi)))));
+        }
+        sh.class("builder_forms");
+    }
     // ---- apply: composed transform == applying one after the other == model
     for &p in pts {
         sh.eval(1);
